@@ -1,5 +1,6 @@
 (* Proofs/SigValidate.v — C10: what a "valid" verdict of the partial-signature
-   validator (Model/SigValidate.v) guarantees, what it does not, and when it panics. *)
+   validator (Model/SigValidate.v, following /repo after fixes a910e27 and 9415d49)
+   guarantees, what it still does not, and when it panics. *)
 From GE Require Import Lib.Bytes Lib.Varint Lib.Sha256 Model.Tx Model.TxHash Model.SigValidate.
 From Coq Require Import ZifyBool ZifyN ZifyNat.
 Open Scope N_scope.
@@ -30,7 +31,7 @@ Section Spec.
   Notation VI := (vs_validate_input digest parse_pk der_ok verify hash160).
   Notation VSig := (vs_validate_sig digest parse_pk der_ok verify hash160).
   Notation VSigs := (vs_validate_sigs digest parse_pk der_ok verify hash160).
-  Notation HS := (vs_hash_and_script digest).
+  Notation HS := (vs_hash_and_script digest hash160).
 
   (* the outpoint of input i *)
   Definition outpoint_of (v : vver) (p : vpacket) (i : nat) (inp : vinput) : option (bytes * N) :=
@@ -60,18 +61,8 @@ Section Spec.
     | a :: b :: r => if (n8 a =? 0) && (n8 b =? 0x14) && (length r =? 20)%nat then Some r else None
     | _ => None
     end.
-  Definition p2wsh_prog (s : bytes) : option bytes :=
-    match s with
-    | a :: b :: r => if (n8 a =? 0) && (n8 b =? 0x20) && (length r =? 32)%nat then Some r else None
-    | _ => None
-    end.
-  Definition p2sh_prog (s : bytes) : option bytes :=
-    match s with
-    | a :: b :: r =>
-        if (n8 a =? 0xa9) && (n8 b =? 0x14) && (length r =? 21)%nat && bytes_eqb (skipn 20 r) [x87]
-        then Some (firstn 20 r) else None
-    | _ => None
-    end.
+  Notation p2wsh_prog := vs_p2wsh_prog.
+  Notation p2sh_prog := vs_p2sh_prog.
 
   (* what must be hashed for a spent output (algorithm, script code, amount) and the script
      in which the key must occur; None = the packet does not show how the output is spent
@@ -82,10 +73,8 @@ Section Spec.
     | None =>
         match p2wsh_prog script with
         | Some prog =>
-            match svi_witscript inp with
-            | Some w => if bytes_eqb (sha256 w) prog then Some (Some (VSegwitV0, w, amount, w)) else Some None
-            | None => Some None
-            end
+            let w := vs_opt (svi_witscript inp) in       (* a nil witness script is the empty script *)
+            if bytes_eqb (sha256 w) prog then Some (Some (VSegwitV0, w, amount, w)) else Some None
         | None => None   (* not a witness program *)
         end
     end.
@@ -105,7 +94,7 @@ Section Spec.
                   | None => Some (VLegacy, r, [], r)
                   end
                 else None
-            | None => None
+            | None => Some (VLegacy, spk, [], spk)   (* no redeem script supplied: the output's own script *)
             end
         | None => Some (VLegacy, spk, [], spk)
         end
@@ -135,8 +124,9 @@ Section Spec.
     forall prev, svi_nonwit inp = Some prev ->
       exists h idx, outpoint_of v p i inp = Some (h, idx) /\ txid prev = h.
 
-  (* FULL STATEMENT (valid_only_if).  Refuted for the code as written (see the _refuted
-     theorems at the end of this file); proved under `consistent` below. *)
+  (* FULL STATEMENT (valid_only_if).  Proved below under one residual hypothesis
+     (valid_only_if_partial: scripts starting with OP_0 are well-formed witness programs);
+     without it the abstract statement is refuted (valid_only_if_refuted). *)
   Definition valid_only_if_statement : Prop :=
     forall v p i, VI v p i = VOk true ->
       exists inp, nth_error (svp_ins p) i = Some inp /\ svi_sigs inp <> [] /\
@@ -144,15 +134,6 @@ Section Spec.
         prev_tx_matches v p i inp.
 
   (* ---------- what the code does check ---------- *)
-  (* the previous-transaction test as coded *)
-  Definition prev_tx_checked (v : vver) (p : vpacket) (i : nat) (inp : vinput) : Prop :=
-    forall prev, svi_nonwit inp = Some prev ->
-      exists h idx, outpoint_of v p i inp = Some (h, idx) /\
-        match v with
-        | VsV2 => txid prev = h
-        | VsV0 => vs_compare h (txid prev) <> Gt
-        end.
-
   Definition sig_checked (v : vver) (p : vpacket) (i : nat) (inp : vinput) (s : option vsig) : Prop :=
     exists pub sg ck last rder d scr asm,
       s = Some (mk_vsig (Some pub) sg) /\ parse_pk pub = Some ck /\ rev sg = last :: rder /\
@@ -207,28 +188,25 @@ Section Spec.
   Qed.
 
   Lemma hash_and_script_prev v p i inp ht r :
-    HS v p i inp ht = VOk r -> prev_tx_checked v p i inp.
+    HS v p i inp ht = VOk r -> prev_tx_matches v p i inp.
   Proof.
-    unfold vs_hash_and_script, prev_tx_checked. intros H prev Hp. rewrite Hp in H.
+    unfold vs_hash_and_script, prev_tx_matches. intros H prev Hp. rewrite Hp in H.
     apply vbind_ok in H as [[h idx] [Ho H]]. cbn [fst snd] in H.
-    destruct (vs_prev_id_ok v h (txid prev)) eqn:Eok; cbn [negb] in H; [|discriminate].
+    destruct (vs_prev_id_ok h (txid prev)) eqn:Eok; cbn [negb] in H; [|discriminate].
     exists h, idx. split; [apply outpoint_spec; exact Ho|].
-    unfold vs_prev_id_ok in Eok. destruct v.
-    - intro Hgt. rewrite Hgt in Eok. discriminate.
-    - apply bytes_eqb_eq in Eok. symmetry. exact Eok.
+    unfold vs_prev_id_ok in Eok. apply bytes_eqb_eq in Eok. symmetry. exact Eok.
   Qed.
 
-  (* PARTIAL (valid_only_if_partial): what a valid verdict does guarantee for every
-     packet: every partial signature verifies, under the stated key, the digest the validator
-     selected (vs_hash_and_script: script and amount chosen by the first byte / length of the
-     redeem script if present, else of the utxo script), the key's hex occurs in the
-     disassembly of the script returned with that digest, and a supplied previous
-     transaction passed the coded id test (equality in v2, "outpoint not greater" in v0). *)
-  Theorem valid_only_if_partial v p i :
+  (* valid_only_if_checked: what a valid verdict guarantees for every packet, with no
+     hypothesis: every partial signature verifies, under the stated key, the digest the
+     validator selected (vs_hash_and_script), the key's hex occurs in the disassembly of the
+     script returned with that digest, and a supplied previous transaction hashes to the
+     outpoint txid (v0 and v2: this conjunct of the full statement holds outright). *)
+  Theorem valid_only_if_checked v p i :
     VI v p i = VOk true ->
     exists inp, nth_error (svp_ins p) i = Some inp /\ svi_sigs inp <> [] /\
       (forall s, In s (svi_sigs inp) -> sig_checked v p i inp s) /\
-      prev_tx_checked v p i inp.
+      prev_tx_matches v p i inp.
   Proof.
     intro H. apply validate_input_true in H as [inp [Hn [Hne Hs]]].
     exists inp. split; [exact Hn|]. split; [exact Hne|]. split.
@@ -240,99 +218,94 @@ Section Spec.
       eapply hash_and_script_prev; exact Hhs.
   Qed.
 
-  (* v2: the previous-transaction conjunct of the full statement holds *)
-  Theorem v2_prev_tx_matches p i :
-    VI VsV2 p i = VOk true ->
-    exists inp, nth_error (svp_ins p) i = Some inp /\ prev_tx_matches VsV2 p i inp.
+  (* the previous-transaction conjunct of the full statement *)
+  Theorem prev_tx_matches_always v p i :
+    VI v p i = VOk true ->
+    exists inp, nth_error (svp_ins p) i = Some inp /\ prev_tx_matches v p i inp.
   Proof.
-    intro H. apply valid_only_if_partial in H as [inp [Hn [_ [_ Hp]]]].
-    exists inp. split; [exact Hn|]. intros prev Hprev. destruct (Hp prev Hprev) as (h & idx & Ho & Ht).
-    exists h, idx. split; assumption.
+    intro H. apply valid_only_if_checked in H as [inp [Hn [_ [_ Hp]]]].
+    exists inp. split; assumption.
   Qed.
-  (* ---------- consistent packets: the full statement holds ---------- *)
+
+  (* ---------- the full statement, up to well-formed witness programs ---------- *)
   (* the script the validator classifies *)
   Definition used_script (inp : vinput) (o : txout) : bytes :=
     match svi_redeem inp with Some r => r | None => o_script o end.
 
-  (* a script starting with OP_0 is a well-formed v0 witness program *)
+  (* a script starting with OP_0 is a well-formed v0 witness program.  address.GetScriptType
+     looks at script[0] and len(script[2:]) only, so OP_0 <any byte> <20 bytes> is treated as
+     P2WPKH; this is the one fact about the packet the validator still does not check *)
   Definition wf_program (s : bytes) : Prop :=
     match s with
     | a :: _ => n8 a = 0 -> p2wpkh_prog s <> None \/ p2wsh_prog s <> None
     | [] => True
     end.
 
-  (* exactly the facts the validator does not check (or checks wrongly): the previous
-     transaction hashes to the outpoint txid; a witness-utxo record next to it carries the
-     same amount; a redeem script is present iff the spent script is P2SH, and hashes to its
-     program; OP_0 scripts are well-formed programs; a P2WSH program is the hash of the
-     witness script *)
-  Definition consistent (v : vver) (p : vpacket) (i : nat) (inp : vinput) : Prop :=
-    prev_tx_matches v p i inp /\
-    exists o, spent_output v p i inp = Some o /\
-      (forall w, svi_nonwit inp <> None -> svi_wit inp = Some w -> o_value w = o_value o) /\
-      match svi_redeem inp with
-      | Some r => exists prog, p2sh_prog (o_script o) = Some prog /\ hash160 r = prog
-      | None => p2sh_prog (o_script o) = None
-      end /\
-      wf_program (used_script inp o) /\
-      (forall prog, p2wsh_prog (used_script inp o) = Some prog ->
-                    exists w, svi_witscript inp = Some w /\ sha256 w = prog).
-
   Lemma bytes_eqb_refl a : bytes_eqb a a = true.
   Proof. apply bytes_eqb_eq. reflexivity. Qed.
 
   Lemma p2sh_not_witness inp am s prog : p2sh_prog s = Some prog -> witness_sel inp am s = None.
   Proof.
-    unfold p2sh_prog, witness_sel, p2wpkh_prog, p2wsh_prog.
+    unfold vs_p2sh_prog, witness_sel, p2wpkh_prog, vs_p2wsh_prog.
     destruct s as [|a [|b r]]; try discriminate.
     destruct (n8 a =? 0xa9) eqn:Ea; cbn [andb]; [|discriminate].
     assert (E0 : (n8 a =? 0) = false) by lia. rewrite E0. cbn [andb]. reflexivity.
   Qed.
 
-  Lemma spec_select_used inp o :
-    match svi_redeem inp with
-    | Some r => exists prog, p2sh_prog (o_script o) = Some prog /\ hash160 r = prog
-    | None => p2sh_prog (o_script o) = None
-    end ->
+  (* once the validator has picked its script (redeem script checked against the spent
+     script), the specification selects from that same script *)
+  Lemma spec_select_picked inp o script :
+    vs_pick_script hash160 inp (o_script o) = VOk script ->
+    script = used_script inp o /\
     spec_select inp o =
-    match witness_sel inp (o_value o) (used_script inp o) with
+    match witness_sel inp (o_value o) script with
     | Some x => x
-    | None => Some (VLegacy, used_script inp o, [], used_script inp o)
+    | None => Some (VLegacy, script, [], script)
     end.
   Proof.
-    unfold spec_select, used_script. destruct (svi_redeem inp) as [r|].
-    - intros (prog & Hp & Hh). rewrite (p2sh_not_witness inp (o_value o) _ _ Hp), Hp, Hh, bytes_eqb_refl.
-      reflexivity.
-    - intro Hp. rewrite Hp. destruct (witness_sel inp (o_value o) (o_script o)); reflexivity.
+    unfold vs_pick_script, spec_select, used_script, vs_is_redeem_of.
+    destruct (svi_redeem inp) as [r|].
+    - destruct (p2sh_prog (o_script o)) as [prog|] eqn:Ep; [|discriminate].
+      destruct (bytes_eqb (hash160 r) prog) eqn:Eh; [|discriminate].
+      intro H; injection H as <-. split; [reflexivity|].
+      rewrite (p2sh_not_witness inp (o_value o) _ _ Ep). reflexivity.
+    - intro H; injection H as <-. split; [reflexivity|].
+      destruct (witness_sel inp (o_value o) (o_script o)); [reflexivity|].
+      destruct (p2sh_prog (o_script o)); reflexivity.
   Qed.
 
   Lemma type_cases script ty :
     vs_script_type script = VOk ty -> wf_program script ->
     (ty = StP2WPKH /\ p2wpkh_prog script = Some (skipn 2 script)) \/
-    (ty = StP2WSH /\ p2wpkh_prog script = None /\ exists prog, p2wsh_prog script = Some prog) \/
+    (ty = StP2WSH /\ p2wpkh_prog script = None) \/
     (ty <> StP2WPKH /\ ty <> StP2WSH /\ p2wpkh_prog script = None /\ p2wsh_prog script = None).
   Proof.
     unfold vs_script_type, wf_program. destruct script as [|a r]; [discriminate|].
     destruct (n8 a =? 0) eqn:Ea.
     - destruct r as [|b r2]; [discriminate|].
       intros H Hwf. assert (Ha : n8 a = 0) by lia. specialize (Hwf Ha).
-      unfold p2wpkh_prog, p2wsh_prog in *. rewrite Ea in *. cbn [andb] in *.
+      unfold p2wpkh_prog, vs_p2wsh_prog in *. rewrite Ea in *. cbn [andb] in *.
       destruct (length r2 =? 20)%nat eqn:E20.
       + injection H as <-. left. split; [reflexivity|].
         destruct (n8 b =? 0x14) eqn:Eb; cbn [andb] in *; [reflexivity|].
         exfalso. destruct Hwf as [Hw|Hw]; [congruence|].
         assert (E32 : (length r2 =? 32)%nat = false) by lia. rewrite E32, andb_false_r in Hw. congruence.
       + injection H as <-. right; left. split; [reflexivity|].
-        rewrite andb_false_r in *. split; [reflexivity|].
-        destruct ((n8 b =? 0x20) && (length r2 =? 32)%nat) eqn:E; [eexists; reflexivity|].
-        exfalso. destruct Hwf as [Hw|Hw]; congruence.
+        rewrite andb_false_r. reflexivity.
     - intros H _. right; right.
       assert (Hp : p2wpkh_prog (a :: r) = None /\ p2wsh_prog (a :: r) = None).
-      { unfold p2wpkh_prog, p2wsh_prog. destruct r as [|b r2]; [split; reflexivity|]. rewrite Ea. cbn [andb]. split; reflexivity. }
+      { unfold p2wpkh_prog, vs_p2wsh_prog. destruct r as [|b r2]; [split; reflexivity|]. rewrite Ea. cbn [andb]. split; reflexivity. }
       destruct Hp as [Hp1 Hp2].
       destruct (n8 a =? 0x51); [injection H as <-; repeat split; try discriminate; assumption|].
       destruct (n8 a =? 0xa9); [injection H as <-; repeat split; try discriminate; assumption|].
       destruct (n8 a =? 0x76); injection H as <-; repeat split; try discriminate; assumption.
+  Qed.
+
+  Lemma is_witness_of_spec ws script :
+    vs_is_witness_of ws script = true -> exists prog, p2wsh_prog script = Some prog /\ bytes_eqb (sha256 ws) prog = true.
+  Proof.
+    unfold vs_is_witness_of. destruct (p2wsh_prog script) as [prog|]; [|discriminate].
+    intro H. exists prog. split; [reflexivity|exact H].
   Qed.
 
   Lemma digest_v0_ok p i script amount ht d :
@@ -342,64 +315,74 @@ Section Spec.
     intro H; injection H as <-. reflexivity.
   Qed.
 
-  (* on a consistent packet the digest and script the validator selects are those of the spent output *)
+  (* the digest and script the validator selects are those of the output actually spent *)
   Lemma select_agrees v p i inp ht d scr :
-    consistent v p i inp -> HS v p i inp ht = VOk (d, scr) ->
+    (forall o, spent_output v p i inp = Some o -> wf_program (used_script inp o)) ->
+    HS v p i inp ht = VOk (d, scr) ->
     digest_of_spent v p i inp ht = Some (d, scr).
   Proof.
-    intros (Hprev & o & Hspent & Ham & Hred & Hwf & Htie) H.
-    unfold digest_of_spent. rewrite Hspent. rewrite (spec_select_used inp o Hred).
-    unfold vs_hash_and_script in H. unfold spent_output in Hspent.
+    intros Hwf H. unfold digest_of_spent. unfold vs_hash_and_script in H.
+    unfold spent_output in *.
     destruct (svi_nonwit inp) as [prev|] eqn:Enw.
     - apply vbind_ok in H as [[h idx] [Ho H]]. cbn [fst snd] in H.
-      apply outpoint_spec in Ho. rewrite Ho in Hspent.
-      destruct (negb (vs_prev_id_ok v h (txid prev))); [discriminate|].
+      apply outpoint_spec in Ho. rewrite Ho in *.
+      destruct (negb (vs_prev_id_ok h (txid prev))); [discriminate|].
       destruct (lenL (t_outs prev) <=? idx) eqn:El; [discriminate|].
-      assert (El2 : (idx <? lenL (t_outs prev)) = true) by lia. rewrite El2 in Hspent.
-      rewrite Hspent in H.
-      fold (used_script inp o) in H.
+      assert (El2 : (idx <? lenL (t_outs prev)) = true) by lia. rewrite El2 in *.
+      destruct (nth_error (t_outs prev) (N.to_nat idx)) as [o|]; [|discriminate].
+      specialize (Hwf o eq_refl).
+      apply vbind_ok in H as [script [Hpick H]].
+      destruct (spec_select_picked inp o script Hpick) as [Hus ->]. rewrite <- Hus in Hwf.
       apply vbind_ok in H as [ty [Hty H]].
-      destruct (type_cases _ _ Hty Hwf) as [[-> Hp]|[[-> [Hp1 [prog Hp2]]]|[Hn1 [Hn2 [Hp1 Hp2]]]]].
-      + destruct (svi_wit inp) as [w|] eqn:Ew; [|discriminate].
+      destruct (type_cases _ _ Hty Hwf) as [[-> Hp]|[[-> Hp1]|[Hn1 [Hn2 [Hp1 Hp2]]]]].
+      + apply vbind_ok in H as [d0 [Hd H]]. injection H as <- <-.
+        apply digest_v0_ok in Hd. subst d0. unfold witness_sel. rewrite Hp. reflexivity.
+      + destruct (svi_witscript inp) as [ws|] eqn:Ews; [|discriminate].
+        destruct (vs_is_witness_of ws script) eqn:Eis; cbn [negb] in H; [|discriminate].
+        destruct (is_witness_of_spec _ _ Eis) as (prog & Hp2 & Hsha).
         apply vbind_ok in H as [d0 [Hd H]]. injection H as <- <-.
         apply digest_v0_ok in Hd. subst d0.
-        unfold witness_sel. rewrite Hp.
-        rewrite (Ham w) by (try discriminate; reflexivity). reflexivity.
-      + destruct (Htie prog Hp2) as (w & Hw & Hsha). rewrite Hw in H.
-        apply vbind_ok in H as [d0 [Hd H]]. injection H as <- <-.
-        apply digest_v0_ok in Hd. subst d0.
-        unfold witness_sel. rewrite Hp1, Hp2, Hw, Hsha, bytes_eqb_refl. reflexivity.
+        unfold witness_sel. rewrite Hp1, Hp2, Ews. cbn [vs_opt]. rewrite Hsha. reflexivity.
       + unfold witness_sel. rewrite Hp1, Hp2.
         destruct ty; try congruence; injection H as <- <-; reflexivity.
-    - rewrite Hspent in H.
-      fold (used_script inp o) in H.
+    - destruct (svi_wit inp) as [o|]; [|discriminate].
+      specialize (Hwf o eq_refl).
+      apply vbind_ok in H as [script [Hpick H]].
+      destruct (spec_select_picked inp o script Hpick) as [Hus ->]. rewrite <- Hus in Hwf.
       apply vbind_ok in H as [ty [Hty H]].
-      destruct (type_cases _ _ Hty Hwf) as [[-> Hp]|[[-> [Hp1 [prog Hp2]]]|[Hn1 [Hn2 [Hp1 Hp2]]]]].
+      destruct (type_cases _ _ Hty Hwf) as [[-> Hp]|[[-> Hp1]|[Hn1 [Hn2 [Hp1 Hp2]]]]].
       + apply vbind_ok in H as [d0 [Hd H]]. injection H as <- <-.
-        apply digest_v0_ok in Hd. subst d0.
-        unfold witness_sel. rewrite Hp. reflexivity.
-      + destruct (Htie prog Hp2) as (w & Hw & Hsha). rewrite Hw in H. cbn [vs_opt] in H.
+        apply digest_v0_ok in Hd. subst d0. unfold witness_sel. rewrite Hp. reflexivity.
+      + destruct (vs_is_witness_of (vs_opt (svi_witscript inp)) script) eqn:Eis; cbn [negb] in H; [|discriminate].
+        destruct (is_witness_of_spec _ _ Eis) as (prog & Hp2 & Hsha).
         apply vbind_ok in H as [d0 [Hd H]]. injection H as <- <-.
         apply digest_v0_ok in Hd. subst d0.
-        unfold witness_sel. rewrite Hp1, Hp2, Hw, Hsha, bytes_eqb_refl. reflexivity.
+        unfold witness_sel. rewrite Hp1, Hp2, Hsha. reflexivity.
       + destruct ty; try congruence; discriminate.
   Qed.
 
-  (* valid_only_if, for every packet consistent at input i *)
-  Theorem valid_only_if_consistent v p i :
+  (* PARTIAL (valid_only_if_partial): the full statement for every packet in which the script
+     classified for input i (the redeem script if present, else the spent script) is not a
+     malformed witness program.  Everything else the statement asks for is now enforced by
+     the validator: previous transaction hashing to the outpoint txid (v0 and v2), amount of
+     the output actually spent, redeem script committed to by a P2SH spent script, witness
+     script committed to by the P2WSH program, signature verification under the stated key,
+     key (hex) in the disassembly of the script being satisfied. *)
+  Theorem valid_only_if_partial v p i :
     VI v p i = VOk true ->
-    forall inp, nth_error (svp_ins p) i = Some inp -> consistent v p i inp ->
-      svi_sigs inp <> [] /\
-      (forall s, In s (svi_sigs inp) -> sig_genuine v p i inp s) /\
-      prev_tx_matches v p i inp.
+    exists inp, nth_error (svp_ins p) i = Some inp /\ svi_sigs inp <> [] /\
+      prev_tx_matches v p i inp /\
+      ((forall o, spent_output v p i inp = Some o -> wf_program (used_script inp o)) ->
+       forall s, In s (svi_sigs inp) -> sig_genuine v p i inp s).
   Proof.
-    intros H inp Hn Hc. apply valid_only_if_partial in H as [inp' [Hn' [Hne [Hs _]]]].
-    rewrite Hn in Hn'. injection Hn' as <-.
-    split; [exact Hne|]. split; [|exact (proj1 Hc)].
-    intros s Hin. destruct (Hs s Hin) as (pub & sg & ck & last & rder & d & scr & asm & E1 & E2 & E3 & E4 & E5 & E6 & E7 & E8).
+    intro H. apply valid_only_if_checked in H as [inp [Hn [Hne [Hs Hp]]]].
+    exists inp. split; [exact Hn|]. split; [exact Hne|]. split; [exact Hp|].
+    intros Hwf s Hin.
+    destruct (Hs s Hin) as (pub & sg & ck & last & rder & d & scr & asm & E1 & E2 & E3 & E4 & E5 & E6 & E7 & E8).
     exists pub, sg, ck, last, rder, d, scr, asm. repeat split; try assumption.
     apply select_agrees; assumption.
   Qed.
+
   (* ---------- ideal signatures: corruptions are rejected ---------- *)
   Section Ideal.
     (* signed k m s : s was produced by the holder of key k for message m *)
@@ -414,7 +397,7 @@ Section Spec.
             s = Some (mk_vsig (Some pub) sg) /\ parse_pk pub = Some ck /\ rev sg = last :: rder /\
             HS v p i inp (n8 last) = VOk (d, scr) /\ signed ck d (rev rder).
     Proof.
-      intro H. apply valid_only_if_partial in H as [inp [Hn [_ [Hs _]]]].
+      intro H. apply valid_only_if_checked in H as [inp [Hn [_ [Hs _]]]].
       exists inp. split; [exact Hn|]. intros s Hin.
       destruct (Hs s Hin) as (pub & sg & ck & last & rder & d & scr & asm & E1 & E2 & E3 & E4 & E5 & E6 & _).
       exists pub, sg, ck, last, rder, d, scr. repeat split; try assumption. apply ideal_sig; exact E6.
@@ -433,7 +416,7 @@ Section Spec.
       VI v p i <> VOk true.
     Proof.
       intros Hn Hin Hpk Hrev Honly Hdiff H.
-      apply valid_only_if_partial in H as [inp' [Hn' [_ [Hs _]]]].
+      apply valid_only_if_checked in H as [inp' [Hn' [_ [Hs _]]]].
       rewrite Hn in Hn'. injection Hn' as <-.
       destruct (Hs _ Hin) as (pub' & sg' & ck' & last' & rder' & d & scr & asm & E1 & E2 & E3 & E4 & E5 & E6 & _).
       injection E1 as <- <-. rewrite Hpk in E2. injection E2 as <-.
@@ -442,36 +425,24 @@ Section Spec.
     Qed.
   End Ideal.
 
-  (* substituted previous transaction, v2: any other id is rejected *)
-  Theorem v2_substituted_prev_rejected p i inp prev :
+  (* a substituted previous transaction with any other id (lower or higher) is rejected, v0 and v2 *)
+  Theorem substituted_prev_rejected v p i inp prev h idx :
     nth_error (svp_ins p) i = Some inp -> svi_nonwit inp = Some prev ->
-    txid prev <> svi_prev_txid inp -> VI VsV2 p i <> VOk true.
+    outpoint_of v p i inp = Some (h, idx) -> txid prev <> h -> VI v p i <> VOk true.
   Proof.
-    intros Hn Hp Hne H. apply valid_only_if_partial in H as [inp' [Hn' [_ [_ Hc]]]].
+    intros Hn Hp Ho Hne H. apply valid_only_if_checked in H as [inp' [Hn' [_ [_ Hc]]]].
     rewrite Hn in Hn'. injection Hn' as <-.
-    destruct (Hc prev Hp) as (h & idx & Ho & Ht). cbn in Ho. injection Ho as <- <-. contradiction.
-  Qed.
-
-  (* substituted previous transaction, v0: rejected when the outpoint txid compares above its id
-     (the other direction is valid_only_if_refuted_prev_tx_v0) *)
-  Theorem v0_prev_below_outpoint_rejected p i inp prev ti :
-    nth_error (svp_ins p) i = Some inp -> svi_nonwit inp = Some prev ->
-    nth_error (t_ins (svp_tx p)) i = Some ti -> vs_compare (in_hash ti) (txid prev) = Gt ->
-    VI VsV0 p i <> VOk true.
-  Proof.
-    intros Hn Hp Hti Hgt H. apply valid_only_if_partial in H as [inp' [Hn' [_ [_ Hc]]]].
-    rewrite Hn in Hn'. injection Hn' as <-.
-    destruct (Hc prev Hp) as (h & idx & Ho & Ht). cbn in Ho. rewrite Hti in Ho. injection Ho as <- <-.
+    destruct (Hc prev Hp) as (h' & idx' & Ho' & Ht). rewrite Ho in Ho'. injection Ho' as <- <-.
     contradiction.
   Qed.
 
   (* ---------- panics ---------- *)
   (* what the PSET parsers guarantee about the fields read here: one packet input per
-     transaction input, partial signatures with a parsable key and a non-empty signature *)
+     transaction input, partial signatures that are present and carry a parsable key *)
   Definition accepted (p : vpacket) : Prop :=
     length (t_ins (svp_tx p)) = length (svp_ins p) /\
     forall inp, In inp (svp_ins p) -> forall s, In s (svi_sigs inp) ->
-      exists pub sg, s = Some (mk_vsig (Some pub) sg) /\ parse_pk pub <> None /\ sg <> [].
+      exists pub sg, s = Some (mk_vsig (Some pub) sg) /\ parse_pk pub <> None.
 
   (* FULL STATEMENT (no_panic_on_accepted_packets); refuted below *)
   Definition no_panic_statement : Prop :=
@@ -479,18 +450,11 @@ Section Spec.
 
   Definition script_ok (s : bytes) : Prop := s <> [] /\ (forall a, s = [a] -> n8 a <> 0).
 
-  (* the unchecked expressions: the outpoint index is within the previous transaction, the
-     classified script is non-empty and not the single byte OP_0, a P2WPKH script next to a
-     previous transaction comes with a witness-utxo record *)
+  (* the remaining unchecked expressions are in address.GetScriptType: the classified script
+     (redeem script if present, else the spent script) must be non-empty and not the single
+     byte OP_0 *)
   Definition panic_guards (v : vver) (p : vpacket) (i : nat) (inp : vinput) : Prop :=
-    match svi_nonwit inp with
-    | Some prev =>
-        forall h idx, outpoint_of v p i inp = Some (h, idx) ->
-          exists o, idx < lenL (t_outs prev) /\ nth_error (t_outs prev) (N.to_nat idx) = Some o /\
-                    script_ok (used_script inp o) /\
-                    (vs_script_type (used_script inp o) = VOk StP2WPKH -> svi_wit inp <> None)
-    | None => forall w, svi_wit inp = Some w -> script_ok (used_script inp w)
-    end.
+    forall o, spent_output v p i inp = Some o -> script_ok (used_script inp o).
 
   Lemma script_type_total s : script_ok s -> exists ty, vs_script_type s = VOk ty.
   Proof.
@@ -510,11 +474,15 @@ Section Spec.
     intro H. unfold vs_digest_v0. destruct (Nat.ltb_spec i (length (t_ins (svp_tx p)))); [eexists; reflexivity|lia].
   Qed.
 
+  Lemma pick_script_used inp o script :
+    vs_pick_script hash160 inp (o_script o) = VOk script -> script = used_script inp o.
+  Proof. intro H. exact (proj1 (spec_select_picked inp o script H)). Qed.
+
   Lemma hash_and_script_no_panic v p i inp ht :
     (i < length (t_ins (svp_tx p)))%nat -> panic_guards v p i inp ->
     forall site, HS v p i inp ht <> VPanic site.
   Proof.
-    intros Hi Hg site. unfold vs_hash_and_script, panic_guards in *.
+    intros Hi Hg site. unfold vs_hash_and_script, panic_guards, spent_output in *.
     destruct (svi_nonwit inp) as [prev|].
     - assert (Ho : exists h idx, vs_outpoint v p i inp = VOk (h, idx) /\ outpoint_of v p i inp = Some (h, idx)).
       { unfold vs_outpoint, outpoint_of. destruct v.
@@ -522,37 +490,44 @@ Section Spec.
           + exists (in_hash ti), (in_index ti). split; reflexivity.
           + apply nth_error_None in E. lia.
         - eexists; eexists; split; reflexivity. }
-      destruct Ho as (h & idx & Ho1 & Ho2). rewrite Ho1. cbn [vbind fst snd].
-      destruct (negb (vs_prev_id_ok v h (txid prev))); [discriminate|].
-      destruct (Hg h idx Ho2) as (o & Hlt & Hnth & Hsok & Hw).
-      destruct (N.leb_spec (lenL (t_outs prev)) idx); [lia|].
-      rewrite Hnth. fold (used_script inp o).
-      destruct (script_type_total _ Hsok) as [ty Hty]. rewrite Hty in *. cbn [vbind].
+      destruct Ho as (h & idx & Ho1 & Ho2). rewrite Ho1, Ho2 in *. cbn [vbind fst snd].
+      destruct (negb (vs_prev_id_ok h (txid prev))); [discriminate|].
+      destruct (N.leb_spec (lenL (t_outs prev)) idx) as [Hle|Hlt]; [discriminate|].
+      assert (El2 : (idx <? lenL (t_outs prev)) = true) by lia. rewrite El2 in Hg.
+      destruct (nth_error (t_outs prev) (N.to_nat idx)) as [o|]; [|discriminate].
+      specialize (Hg o eq_refl).
+      destruct (vs_pick_script hash160 inp (o_script o)) as [script| |st] eqn:Epick; cbn [vbind]; try discriminate.
+      2:{ unfold vs_pick_script in Epick. destruct (svi_redeem inp); [destruct (vs_is_redeem_of _ _ _)|]; discriminate. }
+      rewrite <- (pick_script_used _ _ _ Epick) in Hg.
+      destruct (script_type_total _ Hg) as [ty Hty]. rewrite Hty. cbn [vbind].
       destruct ty; try discriminate.
-      + destruct (svi_wit inp) as [w|]; [|exfalso; apply Hw; reflexivity].
-        destruct (digest_v0_total p i (vs_p2pkh_code (skipn 2 (used_script inp o))) (o_value w) ht Hi) as [d Hd].
+      + destruct (digest_v0_total p i (vs_p2pkh_code (skipn 2 script)) (o_value o) ht Hi) as [d Hd].
         rewrite Hd. discriminate.
       + destruct (svi_witscript inp) as [ws|]; [|discriminate].
+        destruct (negb _); [discriminate|].
         destruct (digest_v0_total p i ws (o_value o) ht Hi) as [d Hd]. rewrite Hd. discriminate.
     - destruct (svi_wit inp) as [w|]; [|discriminate].
-      fold (used_script inp w).
-      destruct (script_type_total _ (Hg w eq_refl)) as [ty Hty]. rewrite Hty. cbn [vbind].
+      specialize (Hg w eq_refl).
+      destruct (vs_pick_script hash160 inp (o_script w)) as [script| |st] eqn:Epick; cbn [vbind]; try discriminate.
+      2:{ unfold vs_pick_script in Epick. destruct (svi_redeem inp); [destruct (vs_is_redeem_of _ _ _)|]; discriminate. }
+      rewrite <- (pick_script_used _ _ _ Epick) in Hg.
+      destruct (script_type_total _ Hg) as [ty Hty]. rewrite Hty. cbn [vbind].
       destruct ty; try discriminate.
-      + destruct (digest_v0_total p i (vs_p2pkh_code (skipn 2 (used_script inp w))) (o_value w) ht Hi) as [d Hd].
+      + destruct (digest_v0_total p i (vs_p2pkh_code (skipn 2 script)) (o_value w) ht Hi) as [d Hd].
         rewrite Hd. discriminate.
-      + destruct (digest_v0_total p i (vs_opt (svi_witscript inp)) (o_value w) ht Hi) as [d Hd].
+      + destruct (negb _); [discriminate|].
+        destruct (digest_v0_total p i (vs_opt (svi_witscript inp)) (o_value w) ht Hi) as [d Hd].
         rewrite Hd. discriminate.
   Qed.
 
   Lemma validate_sig_no_panic v p i inp s :
     (i < length (t_ins (svp_tx p)))%nat -> panic_guards v p i inp ->
-    (exists pub sg, s = Some (mk_vsig (Some pub) sg) /\ parse_pk pub <> None /\ sg <> []) ->
+    (exists pub sg, s = Some (mk_vsig (Some pub) sg) /\ parse_pk pub <> None) ->
     forall site, VSig v p i inp s <> VPanic site.
   Proof.
-    intros Hi Hg (pub & sg & -> & Hpk & Hsg) site. unfold vs_validate_sig. cbn [svg_pub svg_sig vs_opt].
+    intros Hi Hg (pub & sg & -> & Hpk) site. unfold vs_validate_sig. cbn [svg_pub svg_sig vs_opt].
     destruct (vs_pub_missing v _); [discriminate|].
-    destruct (rev sg) as [|last rder] eqn:Er.
-    { exfalso. apply Hsg. rewrite <- (rev_involutive sg), Er. reflexivity. }
+    destruct (rev sg) as [|last rder] eqn:Er; [discriminate|].
     destruct (HS v p i inp (n8 last)) as [[d scr]| |st] eqn:Eh; cbn [vbind]; try discriminate.
     - cbn [fst snd]. unfold vs_verify_script. destruct (parse_pk pub) as [ck|]; [|congruence].
       destruct (vs_disasm scr); cbn [vbind]; [|discriminate].
@@ -614,6 +589,8 @@ Definition scrB : bytes := [x76; x01; x03].                    (* somebody else'
 Definition kW : bytes := repeat x11 20.                         (* toy key whose HASH160 is a 20-byte program *)
 Definition spkW : bytes := [x00; x14] ++ kW.                    (* P2WPKH-shaped *)
 
+(* ---- the four packets that refuted the full statement before the fixes a910e27 / 9415d49
+        are now rejected ---- *)
 (* 1. v0: a previous transaction whose id is not the outpoint txid (it compares above it) *)
 Definition prevA : tx := Eval vm_compute in tx_of [in_of [] 0] [out_of scrA [x01]].
 Definition pkt1 : vpacket := Eval vm_compute in
@@ -621,18 +598,7 @@ Definition pkt1 : vpacket := Eval vm_compute in
     [mk_vinput (Some prevA) None None None
        [Some (mk_vsig (Some kA) (toy_sig kA (toy_digest VLegacy (tx_of [] []) 0 scrA [] 1) 1))] [] 0].
 
-Theorem valid_only_if_refuted_prev_tx_v0 :
-  TVI VsV0 pkt1 0 = VOk true /\
-  forall inp, nth_error (svp_ins pkt1) 0 = Some inp -> ~ prev_tx_matches VsV0 pkt1 0 inp.
-Proof.
-  split; [vm_compute; reflexivity|].
-  intros inp Hn H. vm_compute in Hn. injection Hn as <-.
-  destruct (H prevA eq_refl) as (h & idx & Ho & Ht). vm_compute in Ho. injection Ho as <- <-.
-  vm_compute in Ht. discriminate.
-Qed.
-
-(* 2. both utxo records present, amounts disagree: the signature covers the witness-utxo
-      amount, not the amount of the output the outpoint designates (v2; same code in v0) *)
+(* 2. both utxo records present, amounts disagree, signature over the witness-utxo amount *)
 Definition prevW : tx := Eval vm_compute in tx_of [in_of [] 0] [out_of spkW [x01; x05]].
 Definition idW : bytes := Eval vm_compute in txid prevW.
 Lemma idW_ok : txid prevW = idW.
@@ -643,27 +609,7 @@ Definition pkt2 : vpacket := Eval vm_compute in
        [Some (mk_vsig (Some kW) (toy_sig kW (toy_digest VSegwitV0 (tx_of [] []) 0 (vs_p2pkh_code kW) [x01; x09] 1) 1))]
        idW 0].
 
-Ltac refute_sig_genuine :=
-  let H := fresh "H" in
-  intros (pub & sg & ck & last & rder & d & sat & asm & E1 & E2 & E3 & E4 & E5 & E6 & E7);
-  injection E1 as <- <-; vm_compute in E2; injection E2 as <-;
-  vm_compute in E3; injection E3 as <- <-;
-  vm_compute in E4; try discriminate E4; injection E4 as <- <-;
-  vm_compute in E6; discriminate E6.
-
-Theorem valid_only_if_refuted_amount :
-  TVI VsV2 pkt2 0 = VOk true /\
-  exists inp s, nth_error (svp_ins pkt2) 0 = Some inp /\ In s (svi_sigs inp) /\
-    prev_tx_matches VsV2 pkt2 0 inp /\
-    ~ sig_genuine toy_digest toy_parse_pk toy_der_ok toy_verify toy_hash160 VsV2 pkt2 0 inp s.
-Proof.
-  split; [vm_compute; reflexivity|].
-  eexists; eexists. split; [reflexivity|]. split; [left; reflexivity|]. split.
-  - intros prev Hp. vm_compute in Hp. injection Hp as <-. eexists; eexists. split; [vm_compute; reflexivity | vm_compute; reflexivity].
-  - refute_sig_genuine.
-Qed.
-
-(* 3. a redeem script that the spent script does not commit to (the spent script is not even P2SH) *)
+(* 3. a redeem script that the spent script does not commit to *)
 Definition prevB : tx := Eval vm_compute in tx_of [in_of [] 0] [out_of scrB [x01]].
 Definition idB : bytes := Eval vm_compute in txid prevB.
 Lemma idB_ok : txid prevB = idB.
@@ -674,18 +620,6 @@ Definition pkt3 : vpacket := Eval vm_compute in
        [Some (mk_vsig (Some kA) (toy_sig kA (toy_digest VLegacy (tx_of [] []) 0 scrA [] 1) 1))]
        idB 0].
 
-Theorem valid_only_if_refuted_redeem_script :
-  TVI VsV2 pkt3 0 = VOk true /\
-  exists inp s, nth_error (svp_ins pkt3) 0 = Some inp /\ In s (svi_sigs inp) /\
-    prev_tx_matches VsV2 pkt3 0 inp /\
-    ~ sig_genuine toy_digest toy_parse_pk toy_der_ok toy_verify toy_hash160 VsV2 pkt3 0 inp s.
-Proof.
-  split; [vm_compute; reflexivity|].
-  eexists; eexists. split; [reflexivity|]. split; [left; reflexivity|]. split.
-  - intros prev Hp. vm_compute in Hp. injection Hp as <-. eexists; eexists. split; [vm_compute; reflexivity | vm_compute; reflexivity].
-  - refute_sig_genuine.
-Qed.
-
 (* 4. a witness script that is not the pre-image of the P2WSH program *)
 Definition wsA : bytes := [x51; x01; x02].                     (* OP_1 <02> *)
 Definition pkt4 : vpacket := Eval vm_compute in
@@ -694,10 +628,39 @@ Definition pkt4 : vpacket := Eval vm_compute in
        [Some (mk_vsig (Some kA) (toy_sig kA (toy_digest VSegwitV0 (tx_of [] []) 0 wsA [x01; x05] 1) 1))]
        (repeat x07 32) 0].
 
-Theorem valid_only_if_refuted_witness_script :
-  TVI VsV0 pkt4 0 = VOk true /\ TVI VsV2 pkt4 0 = VOk true /\
-  exists inp s, nth_error (svp_ins pkt4) 0 = Some inp /\ In s (svi_sigs inp) /\
-    ~ sig_genuine toy_digest toy_parse_pk toy_der_ok toy_verify toy_hash160 VsV2 pkt4 0 inp s.
+Example former_witnesses_rejected :
+  TVI VsV0 pkt1 0 = VErr /\                               (* previous transaction with another id *)
+  TVI VsV0 pkt2 0 = VOk false /\ TVI VsV2 pkt2 0 = VOk false /\   (* signature over the wrong amount *)
+  TVI VsV0 pkt3 0 = VErr /\ TVI VsV2 pkt3 0 = VErr /\     (* uncommitted redeem script *)
+  TVI VsV0 pkt4 0 = VErr /\ TVI VsV2 pkt4 0 = VErr.       (* uncommitted witness script *)
+Proof. vm_compute. repeat split. Qed.
+
+(* ---- what is still refutable in the abstract model ---- *)
+Ltac refute_sig_genuine :=
+  let H := fresh "H" in
+  intros (pub & sg & ck & last & rder & d & sat & asm & E1 & E2 & E3 & E4 & E5 & E6 & E7);
+  injection E1 as <- <-; vm_compute in E2; injection E2 as <-;
+  vm_compute in E3; injection E3 as <- <-;
+  vm_compute in E4; try discriminate E4; injection E4 as <- <-;
+  vm_compute in E6; discriminate E6.
+
+(* a malformed witness program OP_0 <01> <02> <19 bytes>: GetScriptType calls it P2WPKH (first
+   byte 0, 20 bytes after the second), so the digest is the segwit one over a P2PKH code made
+   of script[2:], not a digest of the output's script.  The witness needs a key whose hex is
+   shorter than a 20-byte push (here the 1-byte toy key 02); with real keys (33-byte
+   compressed key, 20-byte HASH160) no such script passes the key test, and the S oracle
+   finds none on the implementation. *)
+Definition spkM : bytes := [x00; x01; x02] ++ repeat x51 19.
+Definition pktM : vpacket := Eval vm_compute in
+  mk_vpacket (tx_of [in_of (repeat x07 32) 0] [out_of [] [x01]])
+    [mk_vinput None (Some (out_of spkM [x01; x05])) None None
+       [Some (mk_vsig (Some kA) (toy_sig kA (toy_digest VSegwitV0 (tx_of [] []) 0 (vs_p2pkh_code (skipn 2 spkM)) [x01; x05] 1) 1))]
+       (repeat x07 32) 0].
+
+Theorem valid_only_if_refuted_malformed_program :
+  TVI VsV0 pktM 0 = VOk true /\ TVI VsV2 pktM 0 = VOk true /\
+  exists inp s, nth_error (svp_ins pktM) 0 = Some inp /\ In s (svi_sigs inp) /\
+    ~ sig_genuine toy_digest toy_parse_pk toy_der_ok toy_verify toy_hash160 VsV2 pktM 0 inp s.
 Proof.
   split; [vm_compute; reflexivity|]. split; [vm_compute; reflexivity|].
   eexists; eexists. split; [reflexivity|]. split; [left; reflexivity|].
@@ -707,87 +670,97 @@ Qed.
 Theorem valid_only_if_refuted :
   ~ valid_only_if_statement toy_digest toy_parse_pk toy_der_ok toy_verify toy_hash160.
 Proof.
-  intro H. destruct (H VsV0 pkt1 0%nat (proj1 valid_only_if_refuted_prev_tx_v0)) as (inp & Hn & _ & _ & Hp).
-  exact (proj2 valid_only_if_refuted_prev_tx_v0 inp Hn Hp).
+  intro H. destruct valid_only_if_refuted_malformed_program as (_ & Hv & inp & s & Hn & Hin & Hng).
+  destruct (H VsV2 pktM 0%nat Hv) as (inp' & Hn' & _ & Hg & _).
+  rewrite Hn in Hn'. injection Hn' as <-. exact (Hng (Hg s Hin)).
 Qed.
 
-(* 5. the key test is a substring test on the hex disassembly: a match at an odd hex offset
-      is accepted although the key bytes occur nowhere in the script *)
+(* the key test is a substring test on the hex disassembly: a match at an odd hex offset
+   is accepted although the key bytes occur nowhere in the script *)
 Theorem key_hex_match_not_bytewise :
   exists script asm ck, vs_disasm script = Some asm /\
     vs_is_infix (to_hex ck) asm = true /\ vs_is_infix ck script = false.
 Proof. exists [x02; x10; x12], (to_hex [x10; x12]), [x01]. vm_compute. repeat split. Qed.
 
-(* the hypotheses of valid_only_if_consistent are satisfiable: an honest P2WPKH input with
-   both utxo records, valid and consistent *)
+(* the hypotheses of valid_only_if_partial are satisfiable: an honest P2WPKH input with
+   both utxo records (valid, well-formed program), and a P2SH-wrapped multisig-like input *)
 Definition pkt0 : vpacket := Eval vm_compute in
   mk_vpacket (tx_of [in_of idW 0] [out_of [] [x01]])
     [mk_vinput (Some prevW) (Some (out_of spkW [x01; x05])) None None
        [Some (mk_vsig (Some kW) (toy_sig kW (toy_digest VSegwitV0 (tx_of [] []) 0 (vs_p2pkh_code kW) [x01; x05] 1) 1))]
        idW 0].
 
-Example consistent_valid_packet :
-  TVI VsV2 pkt0 0 = VOk true /\
-  exists inp, nth_error (svp_ins pkt0) 0 = Some inp /\ consistent toy_hash160 VsV2 pkt0 0 inp.
+Example valid_packet_wf_program :
+  TVI VsV2 pkt0 0 = VOk true /\ TVI VsV0 pkt0 0 = VOk true /\
+  exists inp, nth_error (svp_ins pkt0) 0 = Some inp /\
+    forall o, spent_output VsV2 pkt0 0 inp = Some o -> wf_program (used_script inp o).
 Proof.
-  split; [vm_compute; reflexivity|]. eexists. split; [reflexivity|].
-  split.
-  - intros prev Hp. vm_compute in Hp. injection Hp as <-. eexists; eexists. split; [vm_compute; reflexivity | vm_compute; reflexivity].
-  - exists (out_of spkW [x01; x05]). split; [vm_compute; reflexivity|]. split.
-    + intros w _ Hw. vm_compute in Hw. injection Hw as <-. reflexivity.
-    + split; [vm_compute; reflexivity|]. split.
-      * intros _. left. vm_compute. discriminate.
-      * intros prog Hp. vm_compute in Hp. discriminate.
+  split; [vm_compute; reflexivity|]. split; [vm_compute; reflexivity|].
+  eexists. split; [reflexivity|].
+  intros o Ho. vm_compute in Ho. injection Ho as <-. intros _. left. vm_compute. discriminate.
 Qed.
+
+(* a committed redeem script is accepted (toy HASH160 is the identity: the program is the script) *)
+Definition rsA : bytes := repeat x51 17 ++ [x76; x01; x02].    (* 20 bytes, mentions kA *)
+Definition prevS : tx := Eval vm_compute in tx_of [in_of [] 0] [out_of ([xa9; x14] ++ rsA ++ [x87]) [x01]].
+Definition idS : bytes := Eval vm_compute in txid prevS.
+Definition pktS : vpacket := Eval vm_compute in
+  mk_vpacket (tx_of [in_of idS 0] [out_of [] [x01]])
+    [mk_vinput (Some prevS) None (Some rsA) None
+       [Some (mk_vsig (Some kA) (toy_sig kA (toy_digest VLegacy (tx_of [] []) 0 rsA [] 1) 1))]
+       idS 0].
+Example committed_redeem_script_valid : TVI VsV0 pktS 0 = VOk true /\ TVI VsV2 pktS 0 = VOk true.
+Proof. vm_compute. split; reflexivity. Qed.
 
 (* the hypotheses of corruption_rejected are satisfiable (toy signatures are produced for one message) *)
 Example toy_signed_only : forall k m m' s, toy_signed k m s -> toy_signed k m' s -> m = m'.
 Proof. unfold toy_signed. intros k m m' s -> H. apply app_inv_head in H. exact H. Qed.
 
 (* ---------- panics on accepted packets ---------- *)
-(* the outpoint index is not within the supplied previous transaction *)
-Definition pkt5 : vpacket := Eval vm_compute in
-  mk_vpacket (tx_of [in_of idB 1] [])
-    [mk_vinput (Some prevB) None None None [Some (mk_vsig (Some kA) [x01])] idB 1].
-(* a P2WPKH output described by the previous transaction only *)
-Definition pkt6 : vpacket := Eval vm_compute in
-  mk_vpacket (tx_of [in_of idW 0] [])
-    [mk_vinput (Some prevW) None None None [Some (mk_vsig (Some kW) [x01])] idW 0].
 (* an empty script / the one-byte script OP_0 in the witness-utxo record *)
 Definition pkt7 (s : bytes) : vpacket :=
   mk_vpacket (tx_of [in_of [] 0] [])
     [mk_vinput None (Some (out_of s [x01])) None None [Some (mk_vsig (Some kA) [x01])] [] 0].
 
 Lemma toy_accepted_single t inp pub sg :
-  svi_sigs inp = [Some (mk_vsig (Some pub) sg)] -> sg <> [] -> length (t_ins t) = 1%nat ->
+  svi_sigs inp = [Some (mk_vsig (Some pub) sg)] -> length (t_ins t) = 1%nat ->
   accepted toy_parse_pk (mk_vpacket t [inp]).
 Proof.
-  intros Hs Hsg Hl. split; [exact Hl|]. intros inp' [<-|[]] s Hin. rewrite Hs in Hin.
-  destruct Hin as [<-|[]]. exists pub, sg. repeat split; [discriminate | exact Hsg].
+  intros Hs Hl. split; [exact Hl|]. intros inp' [<-|[]] s Hin. rewrite Hs in Hin.
+  destruct Hin as [<-|[]]. exists pub, sg. split; [reflexivity | discriminate].
 Qed.
 
 Theorem no_panic_refuted :
-  (accepted toy_parse_pk pkt5 /\ TVI VsV0 pkt5 0 = VPanic VPPrevOutIndex /\ TVI VsV2 pkt5 0 = VPanic VPPrevOutIndex) /\
-  (accepted toy_parse_pk pkt6 /\ TVI VsV0 pkt6 0 = VPanic VPWitUtxoNil /\ TVI VsV2 pkt6 0 = VPanic VPWitUtxoNil) /\
   (accepted toy_parse_pk (pkt7 []) /\ TVI VsV0 (pkt7 []) 0 = VPanic VPScriptEmpty /\ TVI VsV2 (pkt7 []) 0 = VPanic VPScriptEmpty) /\
   (accepted toy_parse_pk (pkt7 [x00]) /\ TVI VsV0 (pkt7 [x00]) 0 = VPanic VPScriptShort /\ TVI VsV2 (pkt7 [x00]) 0 = VPanic VPScriptShort).
 Proof.
   repeat split; try (vm_compute; reflexivity);
-    (eapply toy_accepted_single; [reflexivity | discriminate | reflexivity]).
+    (eapply toy_accepted_single; [reflexivity | reflexivity]).
 Qed.
 
 Theorem no_panic_statement_refuted :
   ~ no_panic_statement toy_digest toy_parse_pk toy_der_ok toy_verify toy_hash160.
 Proof.
   intro H. destruct no_panic_refuted as [[Ha [Hp _]] _].
-  apply (H VsV0 pkt5 0%nat Ha) with (site := VPPrevOutIndex); [vm_compute; lia | exact Hp].
+  apply (H VsV0 (pkt7 []) 0%nat Ha) with (site := VPScriptEmpty); [vm_compute; lia | exact Hp].
 Qed.
 
-(* outside the parsers' guarantees: an empty signature, a nil signature element, an index
-   past the inputs (hand-built packets only) *)
-Example panic_on_unparsed :
+(* the panics repaired by a910e27 are errors now *)
+Definition pkt5 : vpacket := Eval vm_compute in
+  mk_vpacket (tx_of [in_of idB 1] [])
+    [mk_vinput (Some prevB) None None None [Some (mk_vsig (Some kA) [x01])] idB 1].
+Definition pkt6 : vpacket := Eval vm_compute in
+  mk_vpacket (tx_of [in_of idW 0] [])
+    [mk_vinput (Some prevW) None None None [Some (mk_vsig (Some kW) [x01])] idW 0].
+Example former_panics_are_errors :
+  TVI VsV0 pkt5 0 = VErr /\ TVI VsV2 pkt5 0 = VErr /\                  (* outpoint index past the outputs *)
+  TVI VsV0 pkt6 0 = VOk false /\ TVI VsV2 pkt6 0 = VOk false /\        (* P2WPKH described by the previous transaction only *)
   TVI VsV2 (mk_vpacket (tx_of [in_of [] 0] []) [mk_vinput None None None None [Some (mk_vsig (Some kA) [])] [] 0]) 0
-    = VPanic VPSigEmpty /\
+    = VErr.                                                            (* empty signature *)
+Proof. vm_compute. repeat split. Qed.
+
+(* outside the parsers' guarantees: a nil signature element, an index past the inputs (hand-built packets only) *)
+Example panic_on_unparsed :
   TVI VsV0 (mk_vpacket (tx_of [in_of [] 0] []) [mk_vinput None None None None [None] [] 0]) 0 = VPanic VPSigNil /\
   TVI VsV0 (mk_vpacket (tx_of [] []) []) 0 = VPanic VPInputIndex.
 Proof. vm_compute. repeat split. Qed.
@@ -797,10 +770,132 @@ Example no_panic_guards_hold :
   accepted toy_parse_pk pkt0 /\ forall inp, nth_error (svp_ins pkt0) 0 = Some inp -> panic_guards VsV2 pkt0 0 inp.
 Proof.
   split.
-  - eapply toy_accepted_single; [reflexivity | vm_compute; discriminate | reflexivity].
-  - intros inp Hn. vm_compute in Hn. injection Hn as <-. unfold panic_guards. simpl svi_nonwit.
-    intros h idx Ho. vm_compute in Ho. injection Ho as <- <-.
-    exists (out_of spkW [x01; x05]). split; [vm_compute; reflexivity|]. split; [reflexivity|]. split.
-    + split; [vm_compute; discriminate|]. intros a Ha. vm_compute in Ha. discriminate.
-    + intros _. discriminate.
+  - eapply toy_accepted_single; [reflexivity | reflexivity].
+  - intros inp Hn. vm_compute in Hn. injection Hn as <-. intros o Ho. vm_compute in Ho. injection Ho as <-.
+    split; [vm_compute; discriminate|]. intros a Ha. vm_compute in Ha. discriminate.
+Qed.
+
+(* ---------- ValidateAllSignatures ---------- *)
+Section All.
+  Variable digest : valgo -> tx -> nat -> bytes -> bytes -> N -> bytes.
+  Variable parse_pk : bytes -> option bytes.
+  Variable der_ok : bytes -> bool.
+  Variable verify : bytes -> bytes -> bytes -> bool.
+  Variable hash160 : bytes -> bytes.
+  Notation VI := (vs_validate_input digest parse_pk der_ok verify hash160).
+
+  Lemma validate_from_true v p n : forall k,
+    vs_validate_from digest parse_pk der_ok verify hash160 v p k n = VOk true ->
+    forall j, (k <= j < k + n)%nat -> VI v p j = VOk true.
+  Proof.
+    induction n as [|n IH]; intros k H j Hj; [lia|].
+    cbn [vs_validate_from] in H.
+    destruct (VI v p k) as [[|]| |st] eqn:E; try discriminate.
+    destruct (Nat.eq_dec j k) as [->|Hne]; [exact E|].
+    apply (IH (S k) H). lia.
+  Qed.
+
+  (* a valid verdict for the packet is a valid verdict for every input (in particular every
+     input carries at least one partial signature) *)
+  Theorem validate_all_only_if v p :
+    vs_validate_all digest parse_pk der_ok verify hash160 v p = VOk true ->
+    forall j, (j < length (svp_ins p))%nat -> VI v p j = VOk true.
+  Proof.
+    unfold vs_validate_all. intros H j Hj. apply (validate_from_true v p _ 0%nat H). lia.
+  Qed.
+End All.
+
+(* ---------- corruption_rejected, field by field ---------- *)
+Section Fields.
+  Variable digest : valgo -> tx -> nat -> bytes -> bytes -> N -> bytes.
+  Variable parse_pk : bytes -> option bytes.
+  Variable der_ok : bytes -> bool.
+  Variable verify : bytes -> bytes -> bytes -> bool.
+  Variable hash160 : bytes -> bytes.
+  Notation VI := (vs_validate_input digest parse_pk der_ok verify hash160).
+  Notation HS := (vs_hash_and_script digest hash160).
+
+  (* whatever the validator returns is a digest of this transaction and input *)
+  Lemma hash_and_script_is_digest v p i inp ht d scr :
+    HS v p i inp ht = VOk (d, scr) ->
+    exists a c am, d = digest a (svp_tx p) i c am ht.
+  Proof.
+    unfold vs_hash_and_script. intro H.
+    destruct (svi_nonwit inp) as [prev|].
+    - apply vbind_ok in H as [[h idx] [_ H]]. cbn [fst snd] in H.
+      destruct (negb _); [discriminate|]. destruct (_ <=? _); [discriminate|].
+      destruct (nth_error _ _) as [o|]; [|discriminate].
+      apply vbind_ok in H as [script [_ H]].
+      apply vbind_ok in H as [ty [_ H]].
+      destruct ty.
+      + apply vbind_ok in H as [d0 [Hd H]]. injection H as <- <-.
+        apply (digest_v0_ok digest) in Hd. eexists; eexists; eexists; exact Hd.
+      + destruct (svi_witscript inp) as [ws|]; [|discriminate].
+        destruct (negb _); [discriminate|].
+        apply vbind_ok in H as [d0 [Hd H]]. injection H as <- <-.
+        apply (digest_v0_ok digest) in Hd. eexists; eexists; eexists; exact Hd.
+      + injection H as <- <-. eexists; eexists; eexists; reflexivity.
+      + injection H as <- <-. eexists; eexists; eexists; reflexivity.
+      + injection H as <- <-. eexists; eexists; eexists; reflexivity.
+      + injection H as <- <-. eexists; eexists; eexists; reflexivity.
+    - destruct (svi_wit inp) as [w|]; [|discriminate].
+      apply vbind_ok in H as [script [_ H]].
+      apply vbind_ok in H as [ty [_ H]].
+      destruct ty; try discriminate.
+      + apply vbind_ok in H as [d0 [Hd H]]. injection H as <- <-.
+        apply (digest_v0_ok digest) in Hd. eexists; eexists; eexists; exact Hd.
+      + destruct (negb _); [discriminate|].
+        apply vbind_ok in H as [d0 [Hd H]]. injection H as <- <-.
+        apply (digest_v0_ok digest) in Hd. eexists; eexists; eexists; exact Hd.
+  Qed.
+
+  Variable signed : bytes -> bytes -> bytes -> Prop.
+  Hypothesis ideal_sig : forall k m s, verify k m s = true -> signed k m s.
+  (* C02's sensitivity, as a hypothesis: equal digests force equal algorithm, input index,
+     script code, amount, hash type and equal covered transaction fields *)
+  Variable same_covered : valgo -> N -> nat -> tx -> tx -> Prop.
+  Hypothesis digest_sensitive : forall a t i c am ht a' t' i' c' am' ht',
+    digest a t i c am ht = digest a' t' i' c' am' ht' ->
+    a = a' /\ i = i' /\ c = c' /\ am = am' /\ ht = ht' /\ same_covered a ht i t t'.
+
+  (* A signature that its key holder produced only for
+     digest a0 t0 i0 c0 am0 ht0 is accepted in a packet only if the validator, on that packet,
+     hashes the same algorithm, input index, script code, amount and hash type, over a
+     transaction equal to t0 in every covered field: changing any of them (a covered field,
+     the script or amount that end up hashed, the hash-type byte) gives invalid or an error. *)
+  Theorem corruption_rejected_fields v p i inp pub sg ck last rder a0 t0 i0 c0 am0 ht0 :
+    nth_error (svp_ins p) i = Some inp ->
+    In (Some (mk_vsig (Some pub) sg)) (svi_sigs inp) ->
+    parse_pk pub = Some ck -> rev sg = last :: rder ->
+    (forall m, signed ck m (rev rder) -> m = digest a0 t0 i0 c0 am0 ht0) ->
+    VI v p i = VOk true ->
+    exists scr, HS v p i inp (n8 last) = VOk (digest a0 t0 i0 c0 am0 ht0, scr) /\
+      i = i0 /\ n8 last = ht0 /\ same_covered a0 ht0 i0 t0 (svp_tx p) /\
+      digest a0 t0 i0 c0 am0 ht0 = digest a0 (svp_tx p) i c0 am0 (n8 last).
+  Proof.
+    intros Hn Hin Hpk Hrev Honly H.
+    apply (valid_only_if_checked digest parse_pk der_ok verify hash160) in H as [inp' [Hn' [_ [Hs _]]]].
+    rewrite Hn in Hn'. injection Hn' as <-.
+    destruct (Hs _ Hin) as (pub' & sg' & ck' & last' & rder' & d & scr & asm & E1 & E2 & E3 & E4 & E5 & E6 & _).
+    injection E1 as <- <-. rewrite Hpk in E2. injection E2 as <-.
+    rewrite Hrev in E3. injection E3 as <- <-.
+    apply ideal_sig in E6. apply Honly in E6. subst d.
+    destruct (hash_and_script_is_digest _ _ _ _ _ _ _ E4) as (a & c & am & Hd).
+    destruct (digest_sensitive _ _ _ _ _ _ _ _ _ _ _ _ Hd) as (Ea & Ei & Ec & Eam & Eht & Hcov).
+    subst a i0 c am. exists scr.
+    split; [exact E4|]. split; [reflexivity|]. split; [symmetry; exact Eht|]. split; [exact Hcov|].
+    exact Hd.
+  Qed.
+End Fields.
+
+(* the hypotheses of corruption_rejected_fields are satisfiable: an injective toy digest that
+   covers the whole transaction *)
+Example toy_digest_sensitive_instance :
+  exists (dg : valgo -> tx -> nat -> bytes -> bytes -> N -> valgo * tx * nat * bytes * bytes * N),
+    forall a t i c am ht a' t' i' c' am' ht',
+      dg a t i c am ht = dg a' t' i' c' am' ht' ->
+      a = a' /\ i = i' /\ c = c' /\ am = am' /\ ht = ht' /\ t = t'.
+Proof.
+  exists (fun a t i c am ht => (a, t, i, c, am, ht)).
+  intros a t i c am ht a' t' i' c' am' ht' H. injection H as -> -> -> -> -> ->. repeat split.
 Qed.
